@@ -120,7 +120,54 @@ def actions_of(reply, uri):
     return edits, lints
 
 
-def session(wd, k, offer, docs, events, stats):
+def check_diags(c, uri, text, diags, enc, events, stats):
+    """Every given diagnostic of the document the editor holds: the lint behind it, code actions at every character
+    of its range, every quick fix applied client-side."""
+    for d in diags:
+        stats["diags"] += 1
+        rep = c.request("textDocument/codeAction", {"textDocument": {"uri": uri}, "range": d["range"], "context": {"diagnostics": []}})
+        _, lints = actions_of(rep, uri)
+        cands = [x for x in lints if x.get("message") == d["message"]]
+        a, b = offset_of(text, d["range"]["start"], enc), offset_of(text, d["range"]["end"], enc)
+        if not cands and a is not None and b is not None:
+            # perhaps another position inside the range returns it
+            for at in range(a, b):
+                p2 = pos_of(text, at, enc)
+                pos = {"line": p2[0], "character": p2[1]}
+                rep = c.request("textDocument/codeAction", {"textDocument": {"uri": uri}, "range": {"start": pos, "end": pos}, "context": {"diagnostics": []}})
+                cands = [x for x in actions_of(rep, uri)[1] if x.get("message") == d["message"]]
+                if cands:
+                    break
+        exact = [x for x in cands if [pos_of(text, x["span"]["start"], enc), pos_of(text, x["span"]["end"], enc)] == rj(d["range"])]
+        lint = (exact or cands or [None])[0]
+        if lint is None:
+            events.append({"ev": "Diag", "s": -1, "e": -1, "range": rj(d["range"]), "message": d["message"]})
+            continue
+        s, e = lint["span"]["start"], lint["span"]["end"]
+        events.append({"ev": "Diag", "s": s, "e": e, "range": rj(d["range"]), "message": d["message"]})
+        if not (0 <= s < e <= len(text)):
+            continue
+        stats["spans"].add((text, s, e))
+        for at in range(s, e):
+            p2 = pos_of(text, at, enc)
+            pos = {"line": p2[0], "character": p2[1]}
+            rep = c.request("textDocument/codeAction", {"textDocument": {"uri": uri}, "range": {"start": pos, "end": pos}, "context": {"diagnostics": []}})
+            edits, lints = actions_of(rep, uri)
+            mine = [x for x in edits if x[0] == rj(d["range"])]
+            found = any(x == lint for x in lints) and len(mine) >= len(lint.get("suggestions") or [])
+            events.append({"ev": "Actions", "s": s, "e": e, "at": at, "pos": p2, "found": found, "nsugg": len(lint.get("suggestions") or [])})
+            stats["positions"] += 1
+            if at == s and len(text) <= 200:
+                for sugg in lint.get("suggestions") or []:
+                    want, new = apply_suggestion(text, s, e, sugg)
+                    m = [x for x in mine if x[1] == new]
+                    er, et = (m[0][0], m[0][1]) if m else (rj(d["range"]), "\u0000MISSING")
+                    events.append({"ev": "Edit", "range": er, "new": cps(et), "before": cps(text), "t": [cls(ch) for ch in text],
+                                   "want": cps(want), "edit_present": bool(m)})
+                    stats["edits"] += 1
+
+
+def session(wd, k, offer, docs, events, stats, grow=False):
     home = os.path.join(wd, f"home_{k}")
     docdir = os.path.join(home, "docs")
     os.makedirs(docdir, exist_ok=True)
@@ -151,49 +198,47 @@ def session(wd, k, offer, docs, events, stats):
             if diags is None:
                 raise common.ToolError("no publishDiagnostics for a didOpen")
             events.append({"ev": "Doc", "t": [cls(ch) for ch in text], "text": text, "lang": lang, "ndiag": len(diags), "offer": offer or []})
-            for d in diags:
-                stats["diags"] += 1
-                rep = c.request("textDocument/codeAction", {"textDocument": {"uri": uri}, "range": d["range"], "context": {"diagnostics": []}})
-                _, lints = actions_of(rep, uri)
-                cands = [x for x in lints if x.get("message") == d["message"]]
-                a, b = offset_of(text, d["range"]["start"], enc), offset_of(text, d["range"]["end"], enc)
-                if not cands and a is not None and b is not None:
-                    # perhaps another position inside the range returns it
-                    for at in range(a, b):
-                        p2 = pos_of(text, at, enc)
-                        pos = {"line": p2[0], "character": p2[1]}
-                        rep = c.request("textDocument/codeAction", {"textDocument": {"uri": uri}, "range": {"start": pos, "end": pos}, "context": {"diagnostics": []}})
-                        cands = [x for x in actions_of(rep, uri)[1] if x.get("message") == d["message"]]
-                        if cands:
-                            break
-                exact = [x for x in cands if [pos_of(text, x["span"]["start"], enc), pos_of(text, x["span"]["end"], enc)] == rj(d["range"])]
-                lint = (exact or cands or [None])[0]
-                if lint is None:
-                    events.append({"ev": "Diag", "s": -1, "e": -1, "range": rj(d["range"]), "message": d["message"]})
-                    continue
-                s, e = lint["span"]["start"], lint["span"]["end"]
-                events.append({"ev": "Diag", "s": s, "e": e, "range": rj(d["range"]), "message": d["message"]})
-                if not (0 <= s < e <= len(text)):
-                    continue
-                stats["spans"].add((text, s, e))
-                for at in range(s, e):
-                    p2 = pos_of(text, at, enc)
-                    pos = {"line": p2[0], "character": p2[1]}
-                    rep = c.request("textDocument/codeAction", {"textDocument": {"uri": uri}, "range": {"start": pos, "end": pos}, "context": {"diagnostics": []}})
-                    edits, lints = actions_of(rep, uri)
-                    mine = [x for x in edits if x[0] == rj(d["range"])]
-                    found = any(x == lint for x in lints) and len(mine) >= len(lint.get("suggestions") or [])
-                    events.append({"ev": "Actions", "s": s, "e": e, "at": at, "pos": p2, "found": found, "nsugg": len(lint.get("suggestions") or [])})
-                    stats["positions"] += 1
-                    if at == s and len(text) <= 200:
-                        for sugg in lint.get("suggestions") or []:
-                            want, new = apply_suggestion(text, s, e, sugg)
-                            m = [x for x in mine if x[1] == new]
-                            er, et = (m[0][0], m[0][1]) if m else (rj(d["range"]), "\u0000MISSING")
-                            events.append({"ev": "Edit", "range": er, "new": cps(et), "before": cps(text), "t": [cls(ch) for ch in text],
-                                           "want": cps(want), "edit_present": bool(m)})
-                            stats["edits"] += 1
+            check_diags(c, uri, text, diags, enc, events, stats)
             c.notify("textDocument/didClose", {"textDocument": {"uri": uri}})
+        if grow:
+            # one document that grows far beyond any size an editor would hesitate about, and shrinks again: what the
+            # server says must always be about the text the editor holds now
+            uri = "file://" + os.path.join(docdir, "grow.txt")
+            small = "Ths first line has an mistake.\nThe secnd line too.\n"
+            filler = "".join(f"Line {i} is plain and has no problems at all in it whatsoever.\n" for i in range(2200))
+            big = "A new frst line.\n\n" + filler + "The lst line has teh typo.\n"
+            small2 = "Another txt now.\n"
+            n0 = len(c.notifications)
+            c.notify("textDocument/didOpen", {"textDocument": {"uri": uri, "languageId": "plaintext", "version": 1, "text": small}})
+            diags = c.wait_publish(uri, n0, timeout=180)
+            for ver, text in ((2, big), (3, small2), (4, big + "And one mor line.\n")):
+                n0 = len(c.notifications)
+                c.notify("textDocument/didChange", {"textDocument": {"uri": uri, "version": ver}, "contentChanges": [{"text": text}]})
+                diags = c.wait_publish(uri, n0, timeout=300)
+                if diags is None:
+                    raise common.ToolError("no publishDiagnostics for a didChange")
+                pick = diags if len(diags) <= 6 else diags[:3] + diags[-3:]
+                tmp = []
+                check_diags(c, uri, text, pick, enc, tmp, stats)
+                # a text of this size is not something TLC should walk: every diagnostic is shown to it on its own line
+                # (lints do not cross lines), with line numbers counted from the line the lint is really on
+                for e in tmp:
+                    if e["ev"] not in ("Diag", "Actions"):
+                        continue
+                    if e["s"] < 0:
+                        events.append({"ev": "Doc", "t": [], "text": "", "lang": "plaintext", "ndiag": len(diags), "offer": offer or [], "grown": len(text.encode())})
+                        events.append(e)
+                        continue
+                    ls = text.rfind("\n", 0, e["s"]) + 1
+                    le = text.find("\n", e["s"])
+                    line = text[ls:le if le >= 0 else len(text)]
+                    tl = text.count("\n", 0, e["s"])
+                    if e["ev"] == "Diag":
+                        events.append({"ev": "Doc", "t": [cls(ch) for ch in line], "text": line, "lang": "plaintext", "ndiag": len(diags), "offer": offer or [], "grown": len(text.encode())})
+                        events.append(dict(e, s=e["s"] - ls, e=e["e"] - ls, range=[[e["range"][0][0] - tl, e["range"][0][1]], [e["range"][1][0] - tl, e["range"][1][1]]]))
+                    else:
+                        events.append(dict(e, s=e["s"] - ls, e=e["e"] - ls, at=e["at"] - ls, pos=[e["pos"][0] - tl, e["pos"][1]]))
+                stats["grown_bytes"] = max(stats.get("grown_bytes", 0), len(text.encode()))
         c.request("shutdown")
         c.notify("exit", None)
     except (RuntimeError, BrokenPipeError, OSError) as ex:
@@ -222,7 +267,7 @@ def run(wd, seed, corpus, ndocs):
     corpus = [x for x in corpus if 8 <= len(x) <= 200] or ["This is a sentence."]
     for k, offer in enumerate(OFFERS):
         docs = make_docs(rng, corpus, ndocs)
-        session(wd, k, offer, docs, events, stats)
+        session(wd, k, offer, docs, events, stats, grow=(k == 0))
         stats["sessions"] += 1
     trace = os.path.join(wd, "proto.ndjson")
     with open(trace, "w") as f:
